@@ -181,7 +181,6 @@ Hypothesis Hout : forall j, j <> h -> ~ reach T w sub j -> w_nodes w' j = w_node
 Hypothesis Hin : forall j nj, reach T w sub j -> w_nodes w j = Some nj -> w_nodes w' j = Some (wipe nj) \/ w_nodes w' j = None.
 Hypothesis Hmodels : w_models w' = list_set (w_models w) (N.to_nat m) (apply_plan x K R).
 Hypothesis HK : forall k, In k K <-> exists j q, dpath T w sub j q /\ identifiable T w j = true /\ k = pp ++ seg T w sub ++ q.
-Hypothesis HR : forall p j, In (p, j) R <-> reach T w sub j /\ ref_text T w j = Some p.
 (* K04-front for removal is excluded *)
 Hypothesis Hfront : named T (n_type n) = true -> pos = O ->
   forall s rest sn, n_content n = CElem sub :: CElem s :: rest -> w_nodes w s = Some sn -> n_name sn <> SHORTN.
@@ -533,6 +532,10 @@ Proof.
   - intros ((Hr & Ht) & Hnd). rewrite (rem_ref_text r Hnd). tauto.
 Qed.
 
+(* the removed referrer entries: only references of the subtree, and all of them (the walk of a cross-model move may list
+   more pairs: references whose character data is not a string; removing a pair that is not there does nothing) *)
+Hypothesis HR : (forall p j, In (p, j) R -> reach T w sub j) /\ (forall p j, reach T w sub j -> ref_text T w j = Some p -> In (p, j) R).
+
 Theorem removed_inv05 : Inv05 T w -> Inv05 T w'.
 Proof.
   intros [IE IT]. constructor.
@@ -542,9 +545,9 @@ Proof.
       destruct (fold_remove_origin R (m_origins x) (IT m x Hx) Hnd0) as (_ & Hf). destruct (Hf p) as (H1 & H2).
       unfold origins_of. cbn [apply_plan set_origins m_origins]. split; [exact H1|].
       intros r. fold (oget p (fold_left (fun l pr => remove_origin (fst pr) (snd pr) l) R (m_origins x))).
-      rewrite H2, rem_refset. destruct (IE m x Hx p) as (_ & Hiff). fold (oget p (m_origins x)) in Hiff. rewrite Hiff, HR. split.
-      * intros (Hrs & Hn2). split; [exact Hrs|]. intros Hd. apply Hn2. split; [exact Hd|]. destruct Hrs as (_ & Ht). exact Ht.
-      * intros (Hrs & Hnd). split; [exact Hrs|]. intros (Hd & _). contradiction.
+      rewrite H2, rem_refset. destruct (IE m x Hx p) as (_ & Hiff). fold (oget p (m_origins x)) in Hiff. rewrite Hiff. destruct HR as (HRa & HRb). split.
+      * intros (Hrs & Hn2). split; [exact Hrs|]. intros Hd. apply Hn2. destruct Hrs as (_ & Ht). exact (HRb p r Hd Ht).
+      * intros (Hrs & Hnd). split; [exact Hrs|]. intros HinR. apply Hnd. exact (HRa p r HinR).
     + rewrite (model_at_set_other _ _ _ _ _ Hmodels Hne) in Hy. destruct (IE m2 y Hy p) as (H1 & H2). split; [exact H1|].
       intros r. rewrite H2, rem_refset. split; [|tauto]. intros Hrs. split; [exact Hrs|]. intros Hd.
       apply Hne. eapply D_model; eauto. destruct Hrs as (Hr & _). exact Hr.
@@ -682,7 +685,7 @@ Lemma removed_known_inv04 w h sub w' is_sub :
 Proof.
   intros HF HI Hf Hs (n & pos & m & x & pp & K & R & Hn & Hidx & Hr & Hpp & Hx & Hsh & Hh' & Hout & Hin & Hm & HK & HR & Hnx).
   eapply (removed_inv04 w w' h sub n pos m x pp K R); eauto.
-  eapply remove_front_false; eauto.
+  all: first [eapply remove_front_false; eauto | split; [intros p j HinR; apply HR in HinR; tauto|intros p j Hd Ht; apply HR; auto]].
 Qed.
 
 Lemma removed_known_inv05 w h sub w' is_sub :
@@ -691,7 +694,7 @@ Lemma removed_known_inv05 w h sub w' is_sub :
 Proof.
   intros HF HI HI5 Hf Hs (n & pos & m & x & pp & K & R & Hn & Hidx & Hr & Hpp & Hx & Hsh & Hh' & Hout & Hin & Hm & HK & HR & Hnx).
   eapply removed_inv05 with (h := h) (sub := sub) (n := n) (pos := pos) (m := m) (x := x) (R := R); eauto.
-  eapply remove_front_false; eauto.
+  all: first [eapply remove_front_false; eauto | split; [intros p j HinR; apply HR in HinR; tauto|intros p j Hd Ht; apply HR; auto]].
 Qed.
 
 Theorem C04_remove h sub w r w' :
